@@ -187,6 +187,16 @@ PROPS["C13"] = dict(
     assumptions=["liveness is decided as 'did not return although nothing it could wait for is outstanding'", "skchia is not instantiated"],
 )
 
+PROPS["C08"] = dict(
+    pkgs=["poc/engine/pocminer/miner"], level="exploration", death_is_violation=True,
+    quick=dict(checks=32, shards=16, timeout=900),
+    thorough=dict(checks=320, shards=16, timeout=3000),
+    technique="property-based generation of chain templates, proof sets, target functions and tip/stop events for started miners running in real time against scripted Chain/SyncManager/SpaceKeeper; content-based reference of the slot decision over real BL=24 fixture proofs (re-verified on load)",
+    level_text="Generated rounds are run by the real generateBlocks loop (8-12 miners concurrently per case); every block handed to ProcessBlock is compared with a reference decision recomputed from the offered proofs and the scripted target function; time is used one-sidedly only. Exploration; the interleaving of the stale monitor with the slot loop is sampled, not scheduled.",
+    level_note="Trusted: mass-core proof verification and quality arithmetic, header signature verification; the fixture (re-verified on every load).",
+    assumptions=["abandonment is judged only for rounds whose first eligible slot was at least two slots out of reach when the tip/stop arrived", "completeness is judged by the miner's own request for the next template, never by a timeout", "replays re-resolve template times against the wall clock"],
+)
+
 PROPS["C17"] = dict(
     pkgs=["fractal"], level="exploration", death_is_violation=True,
     quick=dict(checks=96, shards=16, timeout=900),
